@@ -288,6 +288,8 @@ class Builtins(BuiltinCalls, ContainerCalls):
                     tv = ck in cks
         if tv is not None and negate:
             tv = not tv
+        if tv is None and self.I.value_equal_operand(item, state):
+            prov = prov | {"VALEQ"}  # membership of an in-program object is decided by its class's value equality
         return Bool(tv, prov)
 
     # ==================================================================================
@@ -447,7 +449,13 @@ class Builtins(BuiltinCalls, ContainerCalls):
             for x in items:
                 elem = join_val(elem, x)
             return Seq(Length.const(len(items)), elem if items else Top("empty"), "k", items, None, frozenset(), "iter")
-        return Seq(o.length, subst_val(o.key, env), "k", None, None, frozenset({"dict-order"}), "iter")
+        return Seq(o.length, subst_val(o.key, env), "k", None, None, frozenset({"dict-order"}) | self._key_taint(o), "iter")
+
+    @staticmethod
+    def _key_taint(o) -> frozenset:
+        """Which entries a dictionary with computed keys holds (and how many) depends on the keys' equality: iterating it is
+        control dependent on whatever the keys depend on. Encoded as PROV:<tag> flags of the sequence."""
+        return frozenset("PROV:" + t for t in _deep_prov(o.key)) if o.fixed is None else frozenset()
 
     def dict_values_seq(self, state: State, p: Ptr) -> Seq:
         o, env = self.I.deref(state, p)
@@ -457,7 +465,7 @@ class Builtins(BuiltinCalls, ContainerCalls):
             for x in items:
                 elem = join_val(elem, x)
             return Seq(Length.const(len(items)), elem if items else Top("empty"), "k", items, None, frozenset(), "iter")
-        return Seq(o.length, subst_val(o.val, env), "k", None, None, frozenset({"dict-order"}), "iter")
+        return Seq(o.length, subst_val(o.val, env), "k", None, None, frozenset({"dict-order"}) | self._key_taint(o), "iter")
 
     # ==================================================================================
     # facts derived from refinements (stdlib monotonicity axioms)
